@@ -95,8 +95,23 @@ func (vc *VC) doAppend(fr *Frame, st *State, x *ssa.Call, args []*Val) *Val {
 	}
 	// reallocating version
 	hre := vc.fresh("Hre_"+key, "(Array Int "+es+")")
-	vc.assume(fmt.Sprintf("(forall ((a Int)) (! (= (select %s a) (ite (and (<= %s a) (< a (+ %s %s))) (select %s (+ (sptr %s) (- a %s))) (ite (and (<= (+ %s %s) a) (< a (+ %s %s %s))) %s (select %s a)))) :pattern ((select %s a))))",
-		hre, np, np, l, h, s.S, np, np, l, np, l, n, src("(- a (+ "+np+" "+l+"))"), h, hre))
+	if t.KLen > 0 && t.KLen <= 4 {
+		// copy of the old elements (quantified), then the new elements by explicit stores
+		hcp := vc.fresh("Hcp_"+key, "(Array Int "+es+")")
+		vc.assume(fmt.Sprintf("(forall ((a Int)) (! (= (select %s a) (ite (and (<= %s a) (< a (+ %s %s))) (select %s (+ (sptr %s) (- a %s))) (select %s a))) :pattern ((select %s a))))",
+			hcp, np, np, l, h, s.S, np, h, hcp))
+		// the same copy, stated forwards (trigger on the source element)
+		vc.assume(fmt.Sprintf("(forall ((a Int)) (! (=> (and (<= (sptr %s) a) (< a (+ (sptr %s) %s))) (= (select %s (+ %s (- a (sptr %s)))) (select %s a))) :pattern ((select %s a))))",
+			s.S, s.S, l, hcp, np, s.S, h, h))
+		cur := hcp
+		for i := 0; i < t.KLen; i++ {
+			cur = fmt.Sprintf("(store %s (+ %s %s %d) %s)", cur, np, l, i, src(fmt.Sprint(i)))
+		}
+		vc.assume(eq(hre, cur))
+	} else {
+		vc.assume(fmt.Sprintf("(forall ((a Int)) (! (= (select %s a) (ite (and (<= %s a) (< a (+ %s %s))) (select %s (+ (sptr %s) (- a %s))) (ite (and (<= (+ %s %s) a) (< a (+ %s %s %s))) %s (select %s a)))) :pattern ((select %s a))))",
+			hre, np, np, l, h, s.S, np, np, l, np, l, n, src("(- a (+ "+np+" "+l+"))"), h, hre))
+	}
 	nh := vc.fresh("H_"+key, "(Array Int "+es+")")
 	vc.assume(eq(nh, ite(inplace, hin, hre)))
 	st.heaps[key] = nh
@@ -385,6 +400,8 @@ func stdlibHandler(f *ssa.Function) stdHandler {
 		}
 	case "json.Unmarshal":
 		return jsonUnmarshal
+	case "sort.Slice", "sort.SliceStable":
+		return sortSlice
 	case "sort.Strings":
 		return func(vc *VC, fr *Frame, st *State, x *ssa.Call, args []*Val) *Val {
 			// in place; multiset preserved; sorted
@@ -591,4 +608,120 @@ func (vc *VC) havocFresh(fr *Frame, st *State, ms *ModSet, before string) {
 // jsonShapeFacts: what encoding/json guarantees about decoded skeletons
 // (filled in where the unmarshaling contracts need it).
 func (vc *VC) jsonShapeFacts(st *State, v *Val, t types.Type, okc, text string) {
+}
+
+// sortSlice: assumed contract of sort.Slice(x, less): x is permuted in place
+// (same elements as a set, nothing outside x changes) and afterwards no later
+// element is less than an earlier one, where "less" is the contract clause
+// named less (result == E) of the closure passed in.
+func sortSlice(vc *VC, fr *Frame, st *State, x *ssa.Call, args []*Val) *Val {
+	mi, ok := x.Call.Args[0].(*ssa.MakeInterface)
+	var et types.Type
+	if ok {
+		et = sliceElem(mi.X.Type())
+	}
+	if et == nil {
+		vc.unsupported(st, "sort.Slice-operand", vc.pos(x.Pos()))
+		return &Val{T: x.Type()}
+	}
+	sl := vc.val(fr, st, mi.X)
+	key, h := vc.heap(st, et)
+	es := vc.u.sortOf(vc.u.heapKeys[key])
+	nh := vc.fresh("H_"+key, "(Array Int "+es+")")
+	lo, hi := "(sptr "+sl.S+")", "(+ (sptr "+sl.S+") (slen "+sl.S+"))"
+	in := func(a string) string { return "(and (<= " + lo + " " + a + ") (< " + a + " " + hi + "))" }
+	vc.assume(fmt.Sprintf("(forall ((a Int)) (! (=> (not %s) (= (select %s a) (select %s a))) :pattern ((select %s a))))", in("a"), nh, h, nh))
+	vc.assume(fmt.Sprintf("(forall ((a Int)) (! (=> %s (exists ((b Int)) (and %s (= (select %s a) (select %s b))))) :pattern ((select %s a))))", in("a"), in("b"), nh, h, nh))
+	vc.assume(fmt.Sprintf("(forall ((b Int)) (! (=> %s (exists ((a Int)) (and %s (= (select %s a) (select %s b))))) :pattern ((select %s b))))", in("b"), in("a"), nh, h, h))
+	// a ghost bijection witnesses that the result is a permutation
+	vc.nfresh++
+	pf := fmt.Sprintf("perm!%d", vc.nfresh)
+	vc.facts = append(vc.facts, "(declare-fun "+pf+" (Int) Int)")
+	vc.assume(fmt.Sprintf("(forall ((a Int)) (! (=> %s (and %s (= (select %s a) (select %s (%s a))))) :pattern ((select %s a)) :pattern ((%s a))))", in("a"), in("("+pf+" a)"), nh, h, pf, nh, pf))
+	vc.assume(fmt.Sprintf("(forall ((a Int) (b Int)) (! (=> (and %s %s (not (= a b))) (not (= (%s a) (%s b)))) :pattern ((%s a) (%s b))))", in("a"), in("b"), pf, pf, pf, pf))
+	vc.assume(vc.refsBelowAxiom(nh, vc.u.heapKeys[key], st.alloc))
+	st.heaps[key] = nh
+	// sortedness with respect to the closure's contract
+	cl := args[1]
+	if cl.Fn != nil {
+		if con := vc.eng.contractOf(cl.Fn); con != nil {
+			for _, c := range con.Ensures {
+				b, ok := c.E.(*SBinary)
+				if c.Name != "less" || !ok || b.Op != "==" {
+					continue
+				}
+				if id, ok := b.X.(*SIdent); !ok || id.Name != "result" {
+					continue
+				}
+				ps := cl.Fn.Signature.Params()
+				if ps.Len() != 2 {
+					continue
+				}
+				pi, pj := ps.At(0).Name(), ps.At(1).Name()
+				// less(b, a) must be false for a < b: substitute i := $b, j := $a
+				E := substIdent(substIdent(b.Y, pi, "$tmp_i"), pj, "$tmp_j")
+				E = substIdent(substIdent(E, "$tmp_i", "$sb"), "$tmp_j", "$sa")
+				body := &SBinary{"==>", &SBinary{"&&", &SBinary{"&&", &SBinary{"<=", &SInt{"0"}, &SIdent{"$sa"}}, &SBinary{"<", &SIdent{"$sa"}, &SIdent{"$sb"}}}, &SBinary{"<", &SIdent{"$sb"}, &SCall{"len", []SExpr{&SIdent{"$sorted"}}}}}, &SUnary{"!", E}}
+				q := &SQuant{Forall: true, Vars: []SVar{{"$sa", "int"}, {"$sb", "int"}}, Body: body}
+				env := &Env{vc: vc, st: st, old: st, vars: map[string]*Val{"$sorted": sl}}
+				for i, fv := range cl.Fn.FreeVars {
+					if i < len(cl.Bind) {
+						env.vars[fv.Name()] = cl.Bind[i]
+					}
+				}
+				g, err := env.evalBool(q)
+				if err != nil {
+					vc.oblige(st, "spec-error", "sort.Slice/less", "false", vc.pos(x.Pos()), err.Error())
+					continue
+				}
+				vc.assume(implies(st.reach, g))
+				vc.assumed["sort.Slice sorts with respect to the contract clause 'less' of "+fnDisplayName(cl.Fn)] = true
+			}
+		}
+	}
+	return &Val{T: x.Type()}
+}
+
+func substIdent(x SExpr, from, to string) SExpr {
+	switch n := x.(type) {
+	case *SIdent:
+		if n.Name == from {
+			return &SIdent{to}
+		}
+		return n
+	case *sParen:
+		return &sParen{substIdent(n.SExpr, from, to)}
+	case *SUnary:
+		return &SUnary{n.Op, substIdent(n.X, from, to)}
+	case *SBinary:
+		return &SBinary{n.Op, substIdent(n.X, from, to), substIdent(n.Y, from, to)}
+	case *SCall:
+		var as []SExpr
+		for _, a := range n.Args {
+			as = append(as, substIdent(a, from, to))
+		}
+		return &SCall{n.Fun, as}
+	case *SMCall:
+		var as []SExpr
+		for _, a := range n.Args {
+			as = append(as, substIdent(a, from, to))
+		}
+		return &SMCall{substIdent(n.X, from, to), n.Name, as}
+	case *SSel:
+		return &SSel{substIdent(n.X, from, to), n.Name}
+	case *SIndex:
+		return &SIndex{substIdent(n.X, from, to), substIdent(n.I, from, to)}
+	case *SSlice:
+		var lo, hi SExpr
+		if n.Lo != nil {
+			lo = substIdent(n.Lo, from, to)
+		}
+		if n.Hi != nil {
+			hi = substIdent(n.Hi, from, to)
+		}
+		return &SSlice{substIdent(n.X, from, to), lo, hi}
+	case *SQuant:
+		return &SQuant{n.Forall, n.Vars, substIdent(n.Body, from, to)}
+	}
+	return x
 }
